@@ -80,6 +80,19 @@ VersionDemand(ver) ==
   ELSE IF Compatible(ver) THEN "either"
   ELSE "mustnot"
 
+\* The same demand RELATIVE TO THE LIBRARY'S OWN VERSION `cur` (the version string it writes
+\* into the header of its own streams, logged with every load): the compatible set of the
+\* property is the historical list plus that version, so a release that bumps its version
+\* constant is not judged as "a newer, unknown version" of itself.
+VersionDemandCur(ver, cur) ==
+  LET p == SemverParse(ver)
+      c == SemverParse(cur) IN
+  IF PlainListed(ver) THEN "must"
+  ELSE IF p.ok /\ c.ok /\ ~c.pre /\ p.core = c.core
+       THEN (IF p.pre THEN "mustnot" ELSE IF IndexOf(ver, 43) = 0 THEN "must" ELSE "either")
+  ELSE IF Compatible(ver) THEN "either"
+  ELSE "mustnot"
+
 \* ---- streams --------------------------------------------------------------------
 \* st = [ver, secs (body lengths), content]
 StreamLen(st) == FoldLeft(LAMBDA a, b : a + HeaderLen + b, 0, st.secs)
